@@ -13,7 +13,7 @@
      py_sim, emx_sim, join_sim
                       the three places where lines are taken verbatim (Python block, continuation lines of a ~
                       statement, block of a `-> @join` choice) give the same result when no legacy header is among
-                      the lines they consume (safe_until, eme_safe, join_safe)
+                      the lines they consume (safe_until, eme_safe); since fix F17n the third needs no condition
      cond_step_sim, loop_collect_sim, lbody_step_sim, blocks_sim
                       extract_conditional_block / extract_loop_block, mutually recursive with fuel, on any pair of
                       related lists (a loop re-parses a dedented copy of its body: Rx_dedent)
@@ -141,10 +141,10 @@ Proof.
     apply negb_true_iff in Hl. elim Hne. apply Rx_changed; assumption.
 Qed.
 
-Lemma py_old_go_sim : forall opener r r', Forall2 Rx r r' -> safe_until ">>" r = true ->
-  forall base code k, py_old_go opener r' base code k = py_old_go opener r base code k.
+Lemma py_old_go_sim : forall opener start r r', Forall2 Rx r r' -> safe_until ">>" r = true ->
+  forall base code k, py_old_go opener start r' base code k = py_old_go opener start r base code k.
 Proof.
-  intros opener r r' F. induction F as [|x x' r r' H F IH]; intros Hs base code k; [reflexivity|].
+  intros opener start r r' F. induction F as [|x x' r r' H F IH]; intros Hs base code k; [reflexivity|].
   cbn [py_old_go]. cbn [safe_until] in Hs.
   destruct (string_dec_eq x x') as [<-|Hne].
   - destruct (String.eqb (strip x) ">>"); [reflexivity|].
@@ -165,7 +165,7 @@ Proof.
   destruct (nth_error L i) as [l|] eqn:El; destruct (nth_error L' i) as [l'|] eqn:El'; try contradiction; [|reflexivity].
   destruct (Rx_strip _ _ Hn) as [<-|[HP _]].
   - destruct (startswith (strip l) "<<py").
-    + f_equal. unfold extract_py_old_syntax.
+    + unfold extract_py_old_syntax.
       rewrite (nth_default_error _ _ _ El), (nth_default_error _ _ _ El').
       apply py_old_go_sim; [apply Forall2_Rx_skipn; exact F|exact Hc].
     + destruct (startswith (strip l) "@py"); [|reflexivity].
@@ -234,44 +234,29 @@ Qed.
 (* the block of a `-> @join` choice                                                             *)
 (* ------------------------------------------------------------------------------------------- *)
 
-(* no legacy header is collected into the block (as text); a legacy header indented no more than the
-   choice ends the block in either form *)
-Fixpoint join_safe (ci : nat) (rest : list string) : bool :=
-  match rest with
-  | [] => true
-  | line :: rest' =>
-      if is_join_block_terminator line then true
-      else if negb (ParseBlocks.nonempty (strip line)) || is_comment_line line then join_safe ci rest'
-      else if ws_run line <=? ci then true
-      else negb (is_leg line) && join_safe ci rest'
-  end.
-
-Lemma join_collect_sim : forall ci r r', Forall2 Rx r r' -> join_safe ci r = true ->
+(* Since fix F17n a legacy block header ends the block exactly as its @ form does (is_join_block_terminator:
+   legacy_markers), so the extractor cannot tell the two forms apart: no side condition.  (Before the fix an
+   indented legacy header was collected into the block as text while its @ form ended the block, and `admissible`
+   had to exclude legacy headers from join blocks: join_safe.) *)
+Lemma join_collect_sim : forall ci r r', Forall2 Rx r r' ->
   forall blk k, join_collect ci r' blk k = join_collect ci r blk k.
 Proof.
-  intros ci r r' F. induction F as [|x x' r r' H F IH]; intros Hs blk k; [reflexivity|].
-  cbn [join_collect]. cbn [join_safe] in Hs.
-  destruct (Rx_strip _ _ H) as [<-|[HP [Hw _]]].
+  intros ci r r' F. induction F as [|x x' r r' H F IH]; intros blk k; [reflexivity|].
+  cbn [join_collect].
+  destruct (Rx_strip _ _ H) as [<-|[HP _]].
   - destruct (is_join_block_terminator x); [reflexivity|].
-    destruct (negb (ParseBlocks.nonempty (strip x)) || is_comment_line x); [apply IH; exact Hs|].
-    destruct (ws_run x <=? ci); [reflexivity|]. apply andb_prop in Hs. apply IH. tauto.
-  - assert (E : is_join_block_terminator x = false /\ is_join_block_terminator x' = true /\
-                ParseBlocks.nonempty (strip x) = true /\ is_comment_line x = false).
-    { unfold is_join_block_terminator, is_comment_line. destruct HP; repeat split; hp_refl. }
-    destruct E as [E1 [E2 [E3 E4]]]. rewrite E1, E2, E3, E4 in *. cbn [negb orb] in *.
-    destruct (ws_run x <=? ci); [reflexivity|].
-    apply andb_prop in Hs. destruct Hs as [Hl _]. apply negb_true_iff in Hl.
-    destruct H as [E|(ind & B & B' & t & t' & Hi & Ht & Ht' & HP2 & -> & ->)].
-    + subst x'. rewrite E1 in E2. discriminate.
-    + exfalso. unfold is_leg in Hl. destruct (hp_strip _ _ HP2) as [Hs2 [_ [Hn2 _]]].
-      rewrite (strip_mid ind B t Hi Ht Hs2 Hn2) in Hl. destruct (hp_leg _ _ HP2) as [kk Hk]. rewrite Hk in Hl. discriminate.
+    destruct (negb (ParseBlocks.nonempty (strip x)) || is_comment_line x); [apply IH|].
+    destruct (ws_run x <=? ci); [reflexivity|]. apply IH.
+  - assert (E : is_join_block_terminator x = true /\ is_join_block_terminator x' = true).
+    { unfold is_join_block_terminator. destruct HP; split; hp_refl. }
+    destruct E as [E1 E2]. rewrite E1, E2. reflexivity.
 Qed.
 
-Lemma join_sim : forall lf L L' start ci, Forall2 Rx L L' -> join_safe ci (skipn start L) = true ->
+Lemma join_sim : forall lf L L' start ci, Forall2 Rx L L' ->
   extract_join_choice_block lf L' start ci = extract_join_choice_block lf L start ci.
 Proof.
-  intros lf L L' start ci F Hs. unfold extract_join_choice_block.
-  rewrite (join_collect_sim ci _ _ (Forall2_Rx_skipn start _ _ F) Hs). reflexivity.
+  intros lf L L' start ci F. unfold extract_join_choice_block.
+  rewrite (join_collect_sim ci _ _ (Forall2_Rx_skipn start _ _ F)). reflexivity.
 Qed.
 
 (* ------------------------------------------------------------------------------------------- *)
@@ -664,8 +649,7 @@ Variables cchk lchk : list string -> nat -> bool.
 Hypothesis Hxp : forall L L' i, Forall2 Rx L L' -> py_chk L i = true -> x_python xs L' i = x_python xs L i.
 Hypothesis Hxc : forall L L' i, Forall2 Rx L L' -> cchk L i = true -> x_conditional xs L' i = x_conditional xs L i.
 Hypothesis Hxl : forall L L' i, Forall2 Rx L L' -> lchk L i = true -> x_loop xs L' i = x_loop xs L i.
-Hypothesis Hxj : forall L L' s ci, Forall2 Rx L L' -> join_safe ci (skipn s L) = true ->
-  x_join xs L' s ci = x_join xs L s ci.
+Hypothesis Hxj : forall L L' s ci, Forall2 Rx L L' -> x_join xs L' s ci = x_join xs L s ci.
 
 (* one line of a passage body, as the main loop classifies it *)
 Definition main_body_chk (lines : list string) (i : nat) (line : string) : bool :=
@@ -681,12 +665,8 @@ Definition main_body_chk (lines : list string) (i : nat) (line : string) : bool 
   if String.eqb stripped "@join" then true else
   if startswith stripped "->" then true else
   if startswith line "~ " then emx_chk lines i (fst (strip_inline_comment (strip (drop 2 line)))) else
-  if startswith line "+ " || startswith line "* " then
-    match parse_choice_line line with
-    | POk (Some (Choice _ target _ _ _ _ _ _)) =>
-        if String.eqb target "@join" then join_safe (indent_of line) (skipn (S i) lines) else true
-    | _ => true
-    end else
+  (* a choice, with or without the block of `-> @join` (fix F17n: a legacy header ends that block as its @ form does) *)
+  if startswith line "+ " || startswith line "* " then true else
   (* a text line: a legacy <<elif>> / <<else>> / <<endif>> / <<endfor>> outside its block is text *)
   negb (is_leg line).
 
@@ -722,7 +702,7 @@ Proof.
     destruct (parse_choice_line line) as [[[text target args cond sticky sec tags blk]|]|d|e|]; try reflexivity;
       try (destruct d; reflexivity).
     cbn [retag pbind]. destruct (String.eqb target "@join"); [|reflexivity].
-    rewrite (Hxj L L' (S i) (indent_of line) F Hc). reflexivity.
+    rewrite (Hxj L L' (S i) (indent_of line) F). reflexivity.
   - pose proof (changed_is_leg ind B B' t Hi Ht HP) as Hleg.
     unfold ParseMain.body_step, main_body_chk in *. cbv zeta in *.
     destruct (hp_strip _ _ HP) as [Hs [Hs' [Hn Hn']]].
@@ -986,7 +966,7 @@ Proof.
   - intros L L' i G H. exact (py_sim true L L' i G H).
   - intros L L' i G H. exact (cond_v_sim true (Some max_block_depth) real_linefns eq_refl L L' i G H).
   - intros L L' i G H. exact (loop_v_sim true (Some max_block_depth) real_linefns eq_refl L L' i G H).
-  - intros L L' s ci G H. exact (join_sim real_linefns L L' s ci G H).
+  - intros L L' s ci G. exact (join_sim real_linefns L L' s ci G).
   - exact FL.
   - exact Hc.
 Qed.
